@@ -225,7 +225,8 @@ static void op_c15_liveness(Exec& x, const Json& op, int)
 
 static void op_silent_h(Exec& x, const Json& op, int)
 {
-	std::string rel = x.pick_file(op.num("d"), op.num("f"));
+	std::string rel = op.has("sub") ? x.disk_top(op.num("d")) + "/" + op.str("sub") : x.pick_file(op.num("d"), op.num("f"));
+	if (op.has("sub") && !x.sb.exists(rel)) return;
 	if (rel.empty()) return;
 	Bytes b;
 	x.sb.get_file(rel, b);
